@@ -68,7 +68,6 @@ package streamfilter
 //@   loop 1 invariant[all-so-far] forall(j, 0, idx1, APIStream.GetRequest().DoesQueryParamExist(flt(flow).QueryParams[j].Key) && (flt(flow).QueryParams[j].GetParamValue() == nil || APIStream.GetRequest().DoesQueryParamValueMatch(flt(flow).QueryParams[j].Key, flt(flow).QueryParams[j].GetParamValue().GetString())))
 //@   ensures[own-filter] result <==> queryOK(flow, APIStream)
 
-
 //@ func (*FilterNode).isHeaderValueValid
 //@   prop C03
 //@   modifies nothing
